@@ -407,7 +407,7 @@ func checkC18(c *Ctx) {
 	c.R.Clauses = append(c.R.Clauses,
 		"D6: index and order list change together", "L1/L2: hash and list are only touched under the set's mutex (per-variable lock identity: the other set's state needs the other set's lock)",
 		"L3d/L3b: iterators over the set's state leave only wrapped in WithLock, and the map is never ranged from another goroutine", "N1: the lock wrapper is not discarded", "D1 via List",
-		"D6c: sorting a set makes it ordered on every path", "Q7/Q3: the list sorts re-link the very elements the value→element index points at")
+		"D6c: sorting a set makes it ordered on every path", "D6d: Equal compares sizes before its one-directional membership walk", "Q7/Q3: the list sorts re-link the very elements the value→element index points at")
 	c.R.NotCov = append(c.R.NotCov, "agreement with a reference set", "Equal's answer", "JSON round trip", "insertion order")
 	owners := map[string]bool{"dt.Set": true}
 	ruleD6(c, 3)
@@ -416,16 +416,18 @@ func checkC18(c *Ctx) {
 	ruleN1(c, map[string]bool{"dt": true}, 0)
 	ruleD1In(c, map[string]bool{"dt": true}, 5, "set.go")
 	ruleD6c(c)
+	ruleD6d(c)
 	ruleQ67(c)
 	ruleQ34(c, 3)
 }
 
 func checkC19(c *Ctx) {
 	c.R.Clauses = append(c.R.Clauses, "H1: every writer of counts maintains totalCount", "H4: Export and Import agree on every Snapshot field",
-		"H5: value arithmetic is shifted at 64 bits", "H6: Export copies the counts")
+		"H5: value arithmetic is shifted at 64 bits", "H6: Export copies the counts", "H2: Equals compares every field")
 	c.R.NotCov = append(c.R.NotCov, "quantile precision", "bucket arithmetic", "reachability of the invariant panics")
 	ruleH(c)
 	ruleH56(c)
+	ruleH2(c)
 }
 
 func checkC20(c *Ctx) {
